@@ -7,6 +7,7 @@ import (
 	"fmt"
 	"io"
 	"math"
+	"strings"
 
 	"github.com/willabides/rjson"
 
@@ -59,6 +60,10 @@ func (pr *probe) HandleObjectValue(key, data []byte) (int, error) {
 }
 
 var errDeclinedEOF = fmt.Errorf("member rejected by the handler: %w", io.EOF)
+
+type errList []string
+
+func (e errList) Error() string { return strings.Join(e, "; ") }
 
 type sentinelErr struct{ id int }
 
@@ -144,6 +149,10 @@ func libraryErrors() []error {
 	// well-known error values of the standard library and WRAPPED errors: a library that gives
 	// some error a meaning of its own (errors.Is(err, io.EOF) as "stop early", seeded change
 	// C07r6-m1) must still hand every one of them back unchanged
+	// errors whose dynamic type is a slice (go/scanner.ErrorList, validator error lists): not
+	// hashable, not comparable with == to anything but themselves through the interface header
+	// (seeded change C09r8-m1: the handler's error looked up in a map of the library's own errors)
+	out = append(out, errList{"first problem", "second problem"})
 	out = append(out, io.EOF, io.ErrUnexpectedEOF, context.Canceled, errors.New("EOF"),
 		fmt.Errorf("handler: %w", io.EOF), fmt.Errorf("handler: %w", out[0]))
 	return out
@@ -424,19 +433,29 @@ func RunC09(c *Ctx) {
 					viol := func(oracle, exp, obs string) {
 						c.Rec.AddViolation(h.Violation{Property: c.Prop, Oracle: oracle, Entry: kindName[kind], Family: cs.Family, Desc: cs.Describe(), InputB64: b64(d), InputQ: h.Quote(d), Script: script, Expected: exp, Observed: obs, Seed: c.Seed, Tier: c.Tier})
 					}
-					if err != sentinel {
+					if !sameError(err, sentinel) {
 						viol(kindName[kind]+" does not return the handler's error value unchanged", fmt.Sprintf("the handler's own error %q (%T)", errStr(sentinel), sentinel), fmt.Sprintf("p=%d err=%s (%T)", p, errStr(err), err))
 					}
 					if len(pr.log) != k+1 {
 						viol(kindName[kind]+" calls the handler again after it returned an error", fmt.Sprintf("%d calls", k+1), fmt.Sprintf("%d calls: %s", len(pr.log), logString(pr.log)))
 					}
 					if c.Rec.WantSample() && c.Rec.R.Cases%3001 == 1 && k > 0 {
-						c.Rec.Sample(map[string]interface{}{"input": h.Quote(d), "how": cs.Describe(), "entry": kindName[kind], "program": script, "handler_error": errStr(sentinel), "returned_error_is_identical": err == sentinel, "calls": len(pr.log)})
+						c.Rec.Sample(map[string]interface{}{"input": h.Quote(d), "how": cs.Describe(), "entry": kindName[kind], "program": script, "handler_error": errStr(sentinel), "returned_error_is_identical": sameError(err, sentinel), "calls": len(pr.log)})
 					}
 				}
 			}
 		}
 	})
+}
+
+// sameError is identity of error values that also works for uncomparable dynamic types.
+func sameError(a, b error) bool {
+	la, oka := a.(errList)
+	lb, okb := b.(errList)
+	if oka || okb {
+		return oka && okb && len(la) == len(lb) && (len(la) == 0 || &la[0] == &lb[0])
+	}
+	return a == b
 }
 
 func memberKindAt(d []byte, off int) string {
